@@ -945,6 +945,9 @@ def _exec_am(run):
     run.nontrivial = True
 
     def forward(t, sel=False):
+        # same seed for every forward of the run: where the OP start rule has to resample start nodes (fewer
+        # reachable customers than starts) the best-selection pass must see the rollouts of the first pass
+        torch.manual_seed(plan["policy_seed"] % (2**31 - 1) + 1)
         with torch.no_grad(), ProcessTap() as tap:
             o = pol(t, env, phase="test", return_actions=True, return_sum_log_likelihood=False,
                     select_best=sel, max_steps=_max_steps(t), **kw)
